@@ -671,7 +671,7 @@ class Predicate(metaclass=abc.ABCMeta):
             return cls(
                 *(
                     operator(left[k], right[k])
-                    if k in left and k in right and hash(left[k]) != hash(right[k])
+                    if k in left and k in right and not left[k] == right[k]
                     else left[k]
                     if k in left
                     else right[k]
@@ -792,7 +792,7 @@ class Comparison(Predicate):
 
         def __bool__(self):
             if self.operator is Equal:
-                return hash(self.left) == hash(self.right)
+                return self.left.__class__ is self.right.__class__ and tuple.__eq__(self.left, self.right)
             if self.operator is LessThan:
                 return repr(self.left) < repr(self.right)
             raise RuntimeError(f'Unexpected Pythonic comparison using {self.operator}')
@@ -866,7 +866,7 @@ class Equal(Comparison, Infix):
             This doesn't reflect mathematical commutativity - order of potential sub-expression
             operands matters.
         """
-        return hash(self.left) == hash(self.right)
+        return self.left.__class__ is self.right.__class__ and tuple.__eq__(self.left, self.right)
 
 
 class NotEqual(Comparison, Infix):
